@@ -3,7 +3,9 @@
 
    [reachable pg sorted s]: s is a state (files on disk, replay outcome, "deletion was seen on disk"
    flag, what the process is doing) of ONE fraction after any history of create / append / seal+release /
-   retention, with a crash allowed after every single file operation and any number of restarts
+   retention — retention also WHILE the fraction is being sealed (proxyFrac.Suicide waits for the seal,
+   then Sealed.Suicide runs overlapped with Active.Release in any interleaving) or while Release is
+   still running —, with a crash allowed after every single file operation and any number of restarts
    (the loader's own removals can crash too). sorted = not SkipSortDocs. cur_progs = the operation
    orders of the code as it is now. *)
 From Coq Require Import List Bool Arith NArith.
@@ -78,6 +80,13 @@ Example C15_refuted_lone_sdocs_v1 :
   exists s, reachable v1_progs true s /\ (match pr s with PFatal => true | _ => false end) = true.
 Proof. exact v1_fatal. Qed.
 
+(* proxyFrac.Suicide dropping the result of its second trySetSuicided (after sealWg.Wait): retention of
+   a fraction in state Sealing goes on with the stale, already released Active and deletes nothing:
+   the process has dropped the fraction but .sdocs/.index stay and the next start serves it again *)
+Example C15_stale_suicide_refuted :
+  exists s, reachable stale_progs true s /\ negb (st_good true true s) = true.
+Proof. exact stale_bad. Qed.
+
 (* deleting a sealed fraction without the .del phase leaves a lone .index behind *)
 Example C15_nodel_refuted : exists s, reachable nodel_progs true s /\ negb (st_good true true s) = true.
 Proof. exact nodel_bad. Qed.
@@ -105,7 +114,11 @@ Proof. reflexivity. Qed.
 Example C15_nonvacuous_reach :
   (exists s, reachable cur_progs true s /\ st_eqb s (mkstate (fs_of [KSdocsDel; KIndex]) true true (PRun [PRename KIndex KIndexDel; PRemove KDocsDel; PRemove KSdocsDel; PRemove KIndexDel] MGone)) = true)
   /\ (exists s, reachable cur_progs true s /\ st_eqb s (mkstate (fs_of [KDocs; KSdocs; KIndexTmp; KMeta]) true false (PIdle MActive)) = true)
-  /\ (exists s, reachable cur_progs true s /\ st_eqb s (mkstate empty_fs true true (PIdle MGone)) = true).
+  /\ (exists s, reachable cur_progs true s /\ st_eqb s (mkstate empty_fs true true (PIdle MGone)) = true)
+  (* evicted while sealing: Sealed.Suicide has renamed .sdocs, Release has not yet removed .meta/.docs *)
+  /\ (exists s, reachable cur_progs true s /\
+        st_eqb s (mkstate (fs_of [KDocsDel; KSdocsDel; KIndex; KMeta]) true true
+                   (PPar [PRemove KMeta; PRemove KDocs] [PRename KIndex KIndexDel; PRemove KDocsDel; PRemove KSdocsDel; PRemove KIndexDel] MGone)) = true).
 Proof. repeat split; apply exists_reachable; vm_compute; reflexivity. Qed.
 
 Example C15_nonvacuous_dir :
